@@ -273,8 +273,11 @@ func (codecHTTPBody) Unmarshal(data []byte, v interface{}) error {
 func (codecHTTPBody) Name() string { return "body" }
 
 func (codecHTTPBody) ReadNext(b []byte, r io.Reader, limit int) ([]byte, int, error) {
-	var total int
+	total := len(b) // bytes carried over from the previous chunk count
 	for {
+		if limit > 0 && total >= limit {
+			return b, limit, nil
+		}
 		if len(b) == cap(b) {
 			// Add more capacity (let append pick how much).
 			b = append(b, 0)[:len(b)]
@@ -284,6 +287,9 @@ func (codecHTTPBody) ReadNext(b []byte, r io.Reader, limit int) ([]byte, int, er
 		total += int(n)
 		if total > limit {
 			total = limit
+			if err == io.EOF {
+				err = nil // the remainder is returned by the next call
+			}
 		}
 		if err != nil || total == limit {
 			return b, total, err
